@@ -61,7 +61,9 @@ def run(ctx):
     if ctx.quick:
         consts = [c for j, c in enumerate(consts) if j % 3 == ctx.seed % 3 or c.rstrip("uUlL") in ("2147483648", "0x80000000", "4294967296", "9223372036854775808", "0xffffffffffffffff")]
     floats = []
-    for body in ["1.0", "1.", ".5", "1e5", "1.5e-3", "1E+2", "0.0", "3.14159", "12e0"]:
+    for body in ["1.0", "1.", ".5", "1e5", "1.5e-3", "1E+2", "0.0", "3.14159", "12e0",
+                 # hexadecimal floating constants: f / F / l-like letters among the DIGITS are not suffixes ('0x1.fp3' was typed float: repaired)
+                 "0x1p3", "0x1.fp3", "0xfp1", "0x.fp0", "0x1.8p-2", "0XAP+1", "0x1.Fp3", "0xf.fp-1", "0xFFp0", "0x1.0p10"]:
         for s in ["", "f", "F", "l", "L"]:
             floats.append(body + s)
     chars = ["'a'", "'u'", "'L'", "'U'", "'f'", "'8'", "'l'", "L'a'", "u'a'", "U'a'", "L'L'", "u'u'", "U'U'", "u'8'", "'\\n'", "'\\''", "L'\\\\'", "'ab'"]
@@ -113,7 +115,7 @@ def run(ctx):
     ctx.assumptions += ["platform = LP64 (the host's PlatformOptions()); performArithmeticConversions has no platform parameter in the code",
                         "wchar_t/char16_t/char32_t typedefs are absent, so L/u/U constants get the built-in fallbacks int/unsigned short/unsigned int",
                         "bitwise &,^,| and logical &&,|| record no type in the front end and are not in the property's operator list",
-                        "hexadecimal floating constants are not lexed by the front end (see C05) and are not generated here"]
+                        "hexadecimal floating constants: ten bodies x five suffixes"]
     if not proved:
         stages.lean_unproved(ctx, "C13", "PsycheModel.Props.C13")
 
